@@ -21,6 +21,7 @@ UNIX = 719163
 def shards(tier, seed):
     from pyoda_time import CalendarSystem
     out = [{"name": f"rules:{cid}", "part": "rules", "cal": cid, "years": 4 if tier == "quick" else 40} for cid in CalendarSystem.ids]
+    out += [{"name": f"rules-mixed:{i}", "part": "mixed", "years": 12 if tier == "quick" else 150} for i in range(2 if tier == "quick" else 6)]
     if tier == "thorough":
         n = 16; step = (MAXORD + n - 1) // n
         out += [{"name": f"iso:{i}", "part": "iso", "lo": 1 + i * step, "hi": min(MAXORD, (i + 1) * step)} for i in range(n)]
@@ -116,9 +117,24 @@ def run_rules(ctx, cid, n_years):
                     case = {"kind": "rule", "cal": cid, "rule": name, "d": d}
                     ctx.ev(); ctx.count("rule_evals")
                     mdl = None if irregular else model_week(ys, d, x.year, m, f)
+                    wy = None
                     try:
-                        wy = rule.get_week_year(x); w = rule.get_week_of_week_year(x); wk = rule.get_weeks_in_week_year(wy, cal)
-                        back = rule.get_local_date(wy, w, x.day_of_week, cal)
+                        wy = rule.get_week_year(x)
+                    except Exception as e:  # noqa: BLE001
+                        first_exc = e
+                    if wy is not None:
+                        # a week-year that was REPORTED must be usable: week number, weeks in that week-year and the way back
+                        try:
+                            w = rule.get_week_of_week_year(x); wk = rule.get_weeks_in_week_year(wy, cal)
+                            back = rule.get_local_date(wy, w, x.day_of_week, cal)
+                            first_exc = None
+                        except Exception as e:  # noqa: BLE001
+                            ctx.exc(e)
+                            ctx.V(f"C16:reported-week-year-unusable:{exc_key(e)}", f"{cid} day {d} ({x!r}) rule {name}: get_week_year reported {wy}, but converting (week-year, week, day) back raised {e!r}", case, repr(e))
+                            prev = None; continue
+                    try:
+                        if first_exc is not None:
+                            raise first_exc
                     except Exception as e:  # noqa: BLE001
                         ctx.exc(e)
                         outside = mdl is not None and not (cal.min_year <= mdl[0] <= cal.max_year)
@@ -228,8 +244,55 @@ def run_nth(ctx, n_years):
         ctx.counters.setdefault(k, 0)
 
 
+def run_mixed(ctx, n_years):
+    """The SAME rule objects used alternately with several calendars at the same year numbers (a rule must not remember
+    anything about the calendar it was last used with); judged against the week-1 model, fresh rule objects and isocalendar."""
+    from pyoda_time import IsoDayOfWeek
+    from vf import gen
+    rng = ctx.rng
+    rules = all_rules()
+    cids = ["ISO", "Julian", "Gregorian", "Coptic", "Persian Simple", "Hebrew Civil", "Hijri Civil-Base15"]
+    cals = {c: gen.cal_by_id(c) for c in cids}
+    ys = {c: YearStarts(cals[c], c) for c in cids}
+    for _ in range(n_years):
+        y = rng.randint(1500, 3000)
+        order = rng.sample(cids, len(cids))
+        sub = [rules[0]] + rng.sample(rules[1:], 10)
+        for name, rule, irregular, m, f in sub:
+            fresh = dict((n_, r_) for n_, r_, *_ in all_rules())[name]
+            for cid in order + order[:2]:
+                cal = cals[cid]; lo, hi = gen.cal_range(cid)
+                if not cal.min_year + 1 <= y <= cal.max_year - 1: continue
+                s0 = ys[cid].start(y)
+                for d in (s0 - 3, s0, s0 + 4, s0 + 200):
+                    if not lo <= d <= hi: continue
+                    x = gen.date_of(d, cal)
+                    case = {"kind": "mixed", "cal": cid, "rule": name, "d": d}
+                    ctx.ev(); ctx.count("rule_evals"); ctx.key(("mixed", name, cid))
+                    try:
+                        got = (rule.get_week_year(x), rule.get_week_of_week_year(x)); wk = rule.get_weeks_in_week_year(got[0], cal)
+                        ref = (fresh.get_week_year(x), fresh.get_week_of_week_year(x)); wkf = fresh.get_weeks_in_week_year(ref[0], cal)
+                        back = rule.get_local_date(got[0], got[1], x.day_of_week, cal)
+                    except Exception as e:  # noqa: BLE001
+                        ctx.exc(e); ctx.V(f"C16:mixed-calendar-raised:{type(e).__name__}", f"{cid} {x!r} rule {name} (rule object shared between calendars): raised {e!r}", case, repr(e)); continue
+                    mdl = None if irregular else model_week(ys[cid], d, x.year, m, f)
+                    if got != ref or wk != wkf or back != x or (mdl is not None and mdl[1] is not None and (mdl[0], mdl[1]) != got):
+                        ctx.V("C16:rule-depends-on-previous-calendar", f"{cid} {x!r} rule {name}: a rule object previously used with other calendars reports (week-year, week) {got} / {wk} weeks, "
+                              f"converts back to {back!r}; a fresh rule object reports {ref} / {wkf}; model {mdl}", case, got, ref)
+                    if name == "iso" and cid in ("ISO", "Gregorian") and 1 <= x.year <= 9998:
+                        import datetime as _dt
+                        ic = _dt.date.fromordinal(d + UNIX).isocalendar()
+                        if got != (ic[0], ic[1]):
+                            ctx.V("C16:iso-vs-isocalendar", f"{x!r}: ISO rule object (shared between calendars) gives {got}; date.isocalendar() gives {tuple(ic)[:2]}", case, got, tuple(ic)[:2])
+    ctx.sample({"kind": "mixed", "calendars": cids})
+    for k in ("iso_vs_stdlib", "navigation", "nth_weekday"):
+        ctx.counters.setdefault(k, 0)
+
+
 def run(ctx, shard):
     part = shard["part"]
+    if part == "mixed":
+        run_mixed(ctx, shard["years"]); return
     if part == "rules":
         run_rules(ctx, shard["cal"], shard["years"])
     elif part == "iso":
